@@ -166,6 +166,53 @@ func (ex *Exec) modelled(st *State, ref string, fn *types.Func, recv *Val, args 
 				return none()
 			}
 		}
+	case "cmp.Less":
+		if len(args) == 2 && args[0].Sh != nil && args[0].Sh.IsLeaf() {
+			switch args[0].Sh.Leaf {
+			case "Int", "Real":
+				return one(b("(< " + args[0].S + " " + args[1].S + ")"))
+			case "String":
+				return one(b("(str.< " + args[0].S + " " + args[1].S + ")"))
+			default:
+				return one(b("(" + ex.eng.orderFn(args[0].Sh.Leaf) + " " + args[0].S + " " + args[1].S + ")"))
+			}
+		}
+	case "generics.NewSet", "generics.NewSetWithCapacity":
+		// generics.Set[T] is map[T]struct{}: a fresh set holding the given members
+		if rt := r0(); rt != nil && sc == nil {
+			m := ex.emptyMap(rt)
+			if m.Sh != nil && m.Sh.Kind == "map" {
+				if ref == "generics.NewSet" {
+					for _, a := range args {
+						if a.Sh != nil && a.Sh.IsLeaf() {
+							m = ex.mapStore(m, a, ex.zeroSh(m.Sh.Kids[2].Elem, nil))
+						} else {
+							return nil, false
+						}
+					}
+				}
+				return one(m)
+			}
+		}
+	case "generics.Set.Add":
+		// value receiver, but a Go map is a reference: the update is written back to the receiver expression
+		if recv != nil && recv.Sh != nil && recv.Sh.Kind == "map" && sc == nil && ex.curCall != nil {
+			if sel, ok := ex.curCall.Fun.(*ast.SelectorExpr); ok {
+				m := recv
+				for _, a := range args {
+					if a.Sh == nil || !a.Sh.IsLeaf() {
+						return nil, false
+					}
+					m = ex.mapStore(m, a, ex.zeroSh(m.Sh.Kids[2].Elem, nil))
+				}
+				ex.assignBack(st, sel.X, m)
+				return none()
+			}
+		}
+	case "generics.Set.Contains":
+		if recv != nil && recv.Sh != nil && recv.Sh.Kind == "map" && len(args) == 1 && args[0].Sh != nil && args[0].Sh.IsLeaf() {
+			return one(b("(select " + recv.kid("dom").S + " " + args[0].S + ")"))
+		}
 	case "golang.org/x/exp/maps.Keys":
 		m := args[0]
 		if m.Sh != nil && m.Sh.Kind == "map" {
@@ -209,6 +256,33 @@ func (ex *Exec) modelled(st *State, ref string, fn *types.Func, recv *Val, args 
 			ex.assumption("sort: the result is a permutation of the input (same members, same length)")
 			return none()
 		}
+		lessOrder := func(r *Val) {
+			// sort.Slice(x, less) with a literal less: afterwards no later element is `less` than an earlier one
+			if (ref != "sort.Slice" && ref != "sort.SliceStable") || len(args) < 2 || args[1].Fn == nil || args[1].Fn.Lit == nil {
+				return
+			}
+			ex.eng.qn++
+			qi, qj := fmt.Sprintf("q_si_%d", ex.eng.qn), fmt.Sprintf("q_sj_%d", ex.eng.qn)
+			it := types.Typ[types.Int]
+			tmp := st.clone()
+			tmp.assume("(and (<= 0 " + qi + ") (< " + qi + " " + qj + ") (< " + qj + " " + r.kid("len").S + "))")
+			ex.bound++
+			ex.discovery++
+			savedRecs, savedNotes := ex.recs, ex.unknown
+			ex.recs = nil
+			ex.unknown = map[string]int{}
+			for k, v := range savedNotes {
+				ex.unknown[k] = v
+			}
+			res := ex.inlineLit(tmp, args[1].Fn.Lit, []*Val{ex.intVal(qj, it), ex.intVal(qi, it)}, args[1].Fn.Ex)
+			ex.recs, ex.unknown = savedRecs, savedNotes
+			ex.discovery--
+			ex.bound--
+			if len(res) == 1 && res[0].S != "" && tmp.epoch == st.epoch {
+				st.assume("(forall ((" + qi + " Int) (" + qj + " Int)) (=> (and (<= 0 " + qi + ") (< " + qi + " " + qj + ") (< " + qj + " " + r.kid("len").S + ")) (not " + res[0].S + ")))")
+				ex.assumption("sort.Slice(x, less): afterwards less(j, i) is false for all i < j (less is evaluated as a pure expression)")
+			}
+		}
 		if s.Sh != nil && s.Sh.Kind == "slice" && s.kid("elems").Sh.IsLeaf() && sc == nil {
 			r := ex.freshVal(s.T, "sorted")
 			es := s.kid("elems").Sh.Elem.Leaf
@@ -218,6 +292,10 @@ func (ex *Exec) modelled(st *State, ref string, fn *types.Func, recv *Val, args 
 				return "(exists ((i Int)) (and (<= 0 i) (< i " + n + ") (= (select " + arr + " i) x)))"
 			}
 			st.assume("(forall ((x " + es + ")) (= " + mem(a) + " " + mem(b) + "))")
+			// the same fact with Skolem functions (index maps), which instantiate on (select b i) / (select a j)
+			pf, pinv := ex.eng.smt.fresh("perm", "(Array Int Int)"), ex.eng.smt.fresh("perminv", "(Array Int Int)")
+			st.assume("(forall ((i Int)) (! (=> (and (<= 0 i) (< i " + n + ")) (and (<= 0 (select " + pf + " i)) (< (select " + pf + " i) " + n + ") (= (select " + b + " i) (select " + a + " (select " + pf + " i))))) :pattern ((select " + b + " i))))")
+			st.assume("(forall ((j Int)) (! (=> (and (<= 0 j) (< j " + n + ")) (and (<= 0 (select " + pinv + " j)) (< (select " + pinv + " j) " + n + ") (= (select " + a + " j) (select " + b + " (select " + pinv + " j))))) :pattern ((select " + a + " j))))")
 			if ref == "sort.Strings" || ref == "slices.Sort" {
 				var le string
 				switch es {
@@ -252,6 +330,7 @@ func (ex *Exec) modelled(st *State, ref string, fn *types.Func, recv *Val, args 
 				}
 				ex.assignBack(st, arg, ex.retype(r, ex.typeOf(arg)))
 			}
+			lessOrder(r)
 			ex.assumption("sort: the result is a permutation of the input (same members, same length)" )
 			return none()
 		}
